@@ -310,8 +310,8 @@ func main() {
 					case "clientreset":
 						cl.Close()
 						clientClosed = true
-					case "upresp", "upclose":
-						want := map[string]string{"upresp": "gate", "upclose": "gateclose"}[arg]
+					case "upresp", "upclose", "up503":
+						want := map[string]string{"upresp": "gate", "upclose": "gateclose", "up503": "gs503"}[arg]
 						dl := time.Now().Add(300 * time.Millisecond)
 						done := false
 						for time.Now().Before(dl) && !done {
